@@ -598,6 +598,9 @@ nni_sock_create(nni_sock **sp, const nni_proto *proto)
 
 	if (((rv = nni_msgq_init(&s->s_uwq, 0)) != 0) ||
 	    ((rv = nni_msgq_init(&s->s_urq, 1)) != 0)) {
+		// The protocol state has not been initialized, so it
+		// must not be finalized either.
+		s->s_data = NULL;
 		sock_destroy(s);
 		return (rv);
 	}
